@@ -10,8 +10,6 @@ import AcnProofs.Lemmas.CodeTieQueueOps
 
 set_option linter.unusedSectionVars false
 
-set_option linter.unusedSimpArgs false
-
 namespace Acn.CodeTie
 open Acn Acn.Evse Acn.Gen.Code Acn.EventCore
 
@@ -19,34 +17,54 @@ section
 variable {K : Type} [Add K] [Sub K] [Mul K] [Div K] [Neg K] [LT K] [LE K]
   [DecidableLT K] [DecidableLE K] [OfNat K 0] [OfNat K 1] [NatCast K] [HasExp K]
 
+theorem coreOutcome_eq (r : Except PyErr Unit) : coreOutcome r = simOutcome coreErrOfPy r := by
+  cases r <;> rfl
+
+/-- in the model a raising `plugin` / `unplug` of `chargingNet` leaves the occupancy as it was -/
+theorem chargingNet_plugin_err (sts : List String) (o : String → Option Session) (s : Session)
+    (o' : String → Option Session) (er : EventCore.Err) (h : (chargingNet sts).plugin o s = (o', some er)) : o' = o := by
+  simp only [chargingNet] at h
+  split at h
+  · split at h
+    · cases h; rfl
+    · cases h
+  · cases h; rfl
+
+theorem chargingNet_unplug_err (sts : List String) (o : String → Option Session) (s : Session)
+    (o' : String → Option Session) (er : EventCore.Err) (h : (chargingNet sts).unplug o s = (o', some er)) : o' = o := by
+  simp only [chargingNet] at h
+  split at h
+  · cases h
+  · cases h; rfl
+
 /-- the translated `Simulator._process_event` composed with the translated `ChargingNetwork.plugin` / `.unplug`
     (and, inside them, `BaseEVSE.plugin` / `.unplug`) and the translated `EventQueue.add_event` refines the model's
-    `processG` on CPython's heap (`heapQ`) and the occupancy map (`chargingNet`): same error or none, and the same
-    occupancy, heap array, `ev_history` keys, `_resolve`, `_last_schedule_update` afterwards -/
+    `processG` on CPython's heap (`heapQ`) and the occupancy map (`chargingNet`): same error or none, and — also
+    when it raises — the same occupancy, heap array, `ev_history` keys, `_resolve`, `_last_schedule_update` -/
 theorem sim_process_event_charging_network (cfg : Cfg) (e : Event) (x : Ev K)
     (g : CoreG (String → Option Session)) (py : PySim K (PyNet K) Queue.State)
     (hx : e.kind ≠ .recompute → findSession cfg e.sess = some (Sim.sessionOf x))
     (hfresh : e.kind = .plugin → x.session ∉ g.core.evHist)
     (hst : stationsOf py.network = cfg.stations)
     (hR : SimRel occOf (fun q : Queue.State => q.heap.toList) py g) :
-    (∀ py', sim_process_event (fun n ev => net_plugin n ev none) net_unplug queue_add_event py ⟨e, x⟩ = .ok py' →
-        (processG heapQ (chargingNet cfg.stations) cfg e g).2 = none ∧
-        SimRel occOf (fun q : Queue.State => q.heap.toList) py' (processG heapQ (chargingNet cfg.stations) cfg e g).1 ∧
-        stationsOf py'.network = cfg.stations) ∧
-    (∀ er, sim_process_event (fun n ev => net_plugin n ev none) net_unplug queue_add_event py ⟨e, x⟩ = .error er →
-        processG heapQ (chargingNet cfg.stations) cfg e g = (g, some (coreErrOfPy er))) := by
+    (processG heapQ (chargingNet cfg.stations) cfg e g).2 =
+      coreOutcome (sim_process_event (fun n ev => net_plugin n ev none) net_unplug queue_add_event py ⟨e, x⟩).2 ∧
+    SimRel occOf (fun q : Queue.State => q.heap.toList)
+      (sim_process_event (fun n ev => net_plugin n ev none) net_unplug queue_add_event py ⟨e, x⟩).1
+      (processG heapQ (chargingNet cfg.stations) cfg e g).1 ∧
+    stationsOf (sim_process_event (fun n ev => net_plugin n ev none) net_unplug queue_add_event py ⟨e, x⟩).1.network =
+      cfg.stations := by
+  rw [coreOutcome_eq]
   refine sim_process_event_tie heapQ (chargingNet cfg.stations) cfg occOf (fun q : Queue.State => q.heap.toList)
     (fun n => stationsOf n = cfg.stations) coreErrOfPy (fun n ev => net_plugin n ev none) net_unplug queue_add_event
-    e x g py hx ?_ ?_ ?_ hfresh hst hR
+    e x g py hx (chargingNet_plugin_err cfg.stations) (chargingNet_unplug_err cfg.stations) ?_ ?_ ?_ hfresh hst hR
   · intro n hn
-    refine ⟨?_, fun n' h => (net_plugin_stations n n' x none h).trans hn⟩
-    rw [← hn, net_plugin_tie n x none]
-    cases net_plugin n x none <;> rfl
+    refine ⟨?_, (net_plugin_stations n x none).trans hn⟩
+    rw [← hn, net_plugin_tie n x none, coreOutcome_eq]
   · intro n hn
-    refine ⟨?_, fun n' h => (net_unplug_stations n n' _ _ h).trans hn⟩
-    rw [← hn, net_unplug_tie n (Sim.sessionOf x)]
-    show (match net_unplug n x.station (some x.session) with | .ok n' => _ | .error e => _) = _
-    cases net_unplug n x.station (some x.session) <;> rfl
+    refine ⟨?_, (net_unplug_stations n _ _).trans hn⟩
+    rw [← hn, net_unplug_tie n (Sim.sessionOf x), coreOutcome_eq]
+    rfl
   · intro q ev
     simp [queue_add_event, heapQ, pyEntry]
 
